@@ -314,16 +314,16 @@ func TestC20DBI(t *testing.T) {
 // ---- mirror cycle on a real MDB_DUPSORT DBI -----------------------------------
 
 type C20Cycle struct {
-	DupFixed bool     `json:"dupfixed,omitempty"`
-	Initial  []Pair   `json:"initial"`
-	Steps    []C20Step `json:"steps"`
-	ExcludedEmpty int `json:"excluded_empty,omitempty"`
+	DupFixed      bool      `json:"dupfixed,omitempty"`
+	Initial       []Pair    `json:"initial"`
+	Steps         []C20Step `json:"steps"`
+	ExcludedEmpty int       `json:"excluded_empty,omitempty"`
 }
 
 type C20Step struct {
-	Kind   string `json:"kind"` // app | send | remote
-	Add    []Pair `json:"add,omitempty"`
-	DelIdx []int  `json:"del_idx,omitempty"`
+	Kind   string      `json:"kind"` // app | send | remote
+	Add    []Pair      `json:"add,omitempty"`
+	DelIdx []int       `json:"del_idx,omitempty"`
 	Remote []C20Remote `json:"remote,omitempty"`
 }
 
@@ -693,8 +693,9 @@ func refusedBy(loaded *snapshot.Snapshot, lc config.LMDB) error {
 
 func genC20Cycle(t *rapid.T) C20Cycle {
 	var c C20Cycle
-	c.DupFixed = false
 	bad := rapid.IntRange(0, 5).Draw(t, "allow_bad") == 0
+	// MDB_DUPFIXED variant: all values of the DBI have one size
+	c.DupFixed = !bad && rapid.IntRange(0, 3).Draw(t, "dupfixed") == 0
 	fixEmpty := func(ps []Pair) []Pair {
 		for i := range ps {
 			if ps[i].V.Len == 0 {
@@ -704,18 +705,33 @@ func genC20Cycle(t *rapid.T) C20Cycle {
 		}
 		return ps
 	}
-	c.Initial = fixEmpty(genPairs(t, bad))
+	fixSize := func(ps []Pair) []Pair {
+		if !c.DupFixed {
+			return ps
+		}
+		for i := range ps {
+			b := ps[i].V.Bytes()
+			v := make([]byte, 4)
+			copy(v, b)
+			if len(b) == 0 || v[0] == 0 {
+				v[0] = 'f'
+			}
+			ps[i].V = model.ValOf(v)
+		}
+		return ps
+	}
+	c.Initial = fixSize(fixEmpty(genPairs(t, bad)))
 	n := rapid.IntRange(1, 8).Draw(t, "nsteps")
 	for i := 0; i < n; i++ {
 		var s C20Step
 		s.Kind = rapid.SampledFrom([]string{"app", "send", "send", "remote"}).Draw(t, "kind")
 		switch s.Kind {
 		case "app":
-			s.Add = fixEmpty(genPairs(t, bad))
+			s.Add = fixSize(fixEmpty(genPairs(t, bad)))
 			s.DelIdx = rapid.SliceOfN(rapid.IntRange(0, 20), 0, 3).Draw(t, "del")
 		case "remote":
 			// remote pairs may carry values longer than the room left in the key (same shadow key, other value)
-			for _, p := range fixEmpty(genPairs(t, rapid.Bool().Draw(t, "remote_long"))) {
+			for _, p := range fixSize(fixEmpty(genPairs(t, !c.DupFixed && rapid.Bool().Draw(t, "remote_long")))) {
 				s.Remote = append(s.Remote, C20Remote{P: p, Del: rapid.IntRange(0, 3).Draw(t, "rdel") == 0, Age: rapid.IntRange(0, 20).Draw(t, "age")})
 			}
 		}
